@@ -15,6 +15,7 @@ namespace vs
     {
         if (index == 0) return 0;
         const int o = cp.options[index];
+        if (o >= 3000) return 1;                               // the wall clock jumped before this read: a deviation from the default environment
         if (o >= 2000) return 0;                               // which waiter a signal wakes: the implementation's free choice
         if (cp.current_enabled) return 1;                      // preemption of a runnable thread (or a timer firing under it)
         if (o >= 1000 && cp.options[0] < 1000) return 1;       // a timer firing although some thread could run
@@ -44,8 +45,10 @@ namespace vs
             ExecResult r = exec(prefix, trace);
             const bool is_root = prefix.empty();
             if (is_root) root_outcome = r.outcome;
-            // executions at depth < 2 are repeated by every shard (to find their children) and counted by shard 0 only
-            const bool counted = depth >= 2 || !ctx || ctx->shard == 0;
+            // shards split the subtrees below depth `split` (1 when the bound allows one deviation, else 2); the executions above are repeated by
+            // every shard (to find their children) and counted by shard 0 only
+            const int split = bound <= 1 ? 1 : 2;
+            const bool counted = depth >= split || !ctx || ctx->shard == 0;
             if (counted) ++executions;
             if (FILE *dump = dump_file())
             {
@@ -66,7 +69,7 @@ namespace vs
                     for (std::size_t alt = 1; alt < cp.options.size(); ++alt)
                     {
                         if (used + option_cost(cp, alt) > bound) continue;
-                        if (depth == 1 && ctx && !ctx->mine(top_counter++)) continue;   // shards split the second-level subtrees of every configuration
+                        if (depth == split - 1 && ctx && !ctx->mine(top_counter++)) continue;
                         std::vector<int> child = base;
                         child.push_back(static_cast<int>(alt));
                         explore(child, depth + 1);
